@@ -177,10 +177,11 @@ type Engine struct {
 }
 
 type Frame struct {
-	fn     *ssa.Function
-	env    map[ssa.Value]Value
-	visits map[*ssa.BasicBlock]int
-	defers []func()
+	fn        *ssa.Function
+	env       map[ssa.Value]Value
+	visits    map[*ssa.BasicBlock]int
+	symVisits map[*ssa.BasicBlock]int
+	defers    []func()
 }
 
 func (e *Engine) fresh(prefix string, isBool bool) *Term {
@@ -661,7 +662,14 @@ func (e *Engine) libExecAllowed(fn *ssa.Function) bool {
 	if o := f.Origin(); o != nil {
 		f = o
 	}
-	if f.Pkg == nil || fn.Blocks == nil {
+	if fn.Blocks == nil {
+		return false
+	}
+	if f.Pkg == nil {
+		// synthetic wrappers (bound-method closures, thunks): judged by the method they wrap
+		if obj, ok := f.Object().(*types.Func); ok && obj != nil && obj.Pkg() != nil {
+			return libExecPkgs[obj.Pkg().Path()]
+		}
 		return false
 	}
 	return libExecPkgs[f.Pkg.Pkg.Path()]
@@ -718,7 +726,7 @@ func (e *Engine) run(fn *ssa.Function, args []Value, bindings []Value) Value {
 	defer func() { e.depth-- }()
 	nStack := len(e.fnStack)
 	e.fnStack = append(e.fnStack[:nStack:nStack], fn) // left as is when the path ends inside (whereAmI)
-	fr := &Frame{fn: fn, env: make(map[ssa.Value]Value, 16), visits: map[*ssa.BasicBlock]int{}}
+	fr := &Frame{fn: fn, env: make(map[ssa.Value]Value, 16), visits: map[*ssa.BasicBlock]int{}, symVisits: map[*ssa.BasicBlock]int{}}
 	if len(args) != len(fn.Params) {
 		unsupported("arity mismatch calling %s: %d args for %d params", fn.String(), len(args), len(fn.Params))
 	}
